@@ -61,6 +61,17 @@ func init() {
 		},
 	})
 	register(&PropSpec{
+		ID:          "C06",
+		Explanation: "R-ATOMIC R-MUSTPASS R-WG R-PAIR",
+		Rules: []func(*Ctx){
+			func(c *Ctx) { c.ruleAtomic("R-ATOMIC") },
+			func(c *Ctx) { c.ruleMustPass("R-MUSTPASS") },
+			func(c *Ctx) { c.ruleWG("R-WG") },
+			func(c *Ctx) { c.rulePair("R-PAIR") },
+			func(c *Ctx) { c.ruleRecover("R-RECOVER") },
+		},
+	})
+	register(&PropSpec{
 		ID:          "C12",
 		Explanation: "R-MAPORDER",
 		Rules: []func(*Ctx){
